@@ -8,7 +8,7 @@ from ..ops import CaseBuilder
 SCOPE = {"named", "roundtrip", "eq"}
 N_QUICK = 200
 N_THOROUGH = 5000
-RULE = ("random perfect-recall trees x profiles from every source (imported with zeros / pure / dirichlet, truncated, solver "
+RULE = ("40 % of the cases continue with view / truncate the same object (in place or a clone) / view again; every view is also driven through nth, skip, step_by, last and count and compared with plain iteration; random perfect-recall trees x profiles from every source (imported with zeros / pure / dirichlet, truncated, solver "
         "output of Full/Sampled/External under pinned draws) -> as_named with len() queried before every next() on both "
         "iterator levels, then from_named / from_named_eq of the view compared with the original; non-trivial = at least one "
         "zero-probability action is omitted or a single-action infoset is present; distinct by (tree, profile source) hash")
@@ -45,6 +45,15 @@ def generate(rng, tier, n):
         cb.meta["rt_slow"] = len(cb.ops) - 1
         cb.named(r2)
         cb.eq(r1, r2)
+        if rng.random() < 0.4:
+            # view, truncate the very object (or a clone taken after the view), view again: the advertised lengths must
+            # describe the profile as it is now
+            cb.named(s)
+            d = cb.truncate(s, rng.choice([0.1037, 0.317, 0.4831, 0.11 + 0.3 * rng.random()]), inplace=rng.random() < 0.5)   # never AT a typical probability
+            cb.named(d)
+            if rng.random() < 0.5:
+                d2 = cb.truncate(d, rng.choice([0.0531, 0.4517, rng.random()]), inplace=rng.random() < 0.5)
+                cb.named(d2)
         cases.append(cb)
         cid += 1
     return cases
@@ -72,8 +81,21 @@ def monitor(cb, impl):
     if "ops" not in impl:
         return hits
     ops = impl["ops"]
+    # every named view taken in the case is judged (also the ones after a truncation of the same object)
+    for k2, kind in enumerate(cb.kinds):
+        if kind == "named" and k2 < len(ops) and k2 != cb.meta["named_op"]:
+            hits += [(t + " (view taken at op %d, after %s)" % (k2, "a truncation of the viewed object" if k2 > cb.meta["rt_slow"] + 2 else "a round trip"), c)
+                     for t, c in _judge_view(cb, ops[k2])]
     k = cb.meta["named_op"]
     o = ops[k]
+    hits += _judge_view(cb, o)
+    if "ok" not in o:
+        return hits
+    return hits + _judge_roundtrip(cb, ops, o)
+
+
+def _judge_view(cb, o):
+    hits = []
     if "panic" in o:
         return [("as_named panicked: %s" % o["panic"], "panic")]
     if "ok" not in o:
@@ -81,6 +103,9 @@ def monitor(cb, impl):
     multi, singles = infosets_of(cb.tree)
     for pl in (0, 1):
         v = o["ok"][pl]
+        if v.get("alt"):
+            hits.append(("player %d: driving the named view through nth/skip/step_by/last/count disagrees with plain iteration: %s"
+                         % (pl + 1, v["alt"]), "alt-iteration"))
         items = v["items"]
         names = [it[1] for it in items]
         want = [i for i, _ in multi[pl + 1]] + list(singles[pl + 1].keys())
@@ -112,6 +137,11 @@ def monitor(cb, impl):
             else:
                 if [a for a, _ in pairs] != [singles[pl + 1][name]] or probs != [1.0]:
                     hits.append(("player %d single-action infoset %s: view %r" % (pl + 1, name, pairs), "single"))
+    return hits
+
+
+def _judge_roundtrip(cb, ops, o):
+    hits = []
     # round trip
     for key in ("rt_fast", "rt_slow"):
         r = ops[cb.meta[key]]
